@@ -236,10 +236,17 @@ fn build_intent<'b, 'r, 'c, 's:'c, 'm:'c>(rules_with_context: &'r mut SpeechRule
                 intent.set_attribute_value(INTENT_PROPERTY, &properties);
             } else {
                 let saved_intent = mathml.attribute_value(INTENT_ATTR).unwrap();
+                let saved_properties = mathml.attribute_value(INTENT_PROPERTY);
                 mathml.remove_attribute(INTENT_ATTR);
                 mathml.set_attribute_value(INTENT_PROPERTY, &properties);   // needs to be set before the pattern match
-                intent = rules_with_context.match_pattern::<Element<'m>>(mathml)?;
+                let result = rules_with_context.match_pattern::<Element<'m>>(mathml);
+                // put the element back the way it was before returning (also on error) so a failure elsewhere in the intent can be ignored
+                match saved_properties {
+                    None => mathml.remove_attribute(INTENT_PROPERTY),
+                    Some(value) => {mathml.set_attribute_value(INTENT_PROPERTY, value);},
+                };
                 mathml.set_attribute_value(INTENT_ATTR, saved_intent);
+                intent = result?;
             }
             return Ok(intent);      // if we start with properties, then there can only be properties
         },
